@@ -148,6 +148,7 @@ type Exec struct {
 	clock        *Term
 	timers       []timerRec
 	pools        map[*Value][]Value // sync.Pool contents
+	race         *raceState
 	fmtDepth     int       // formatter model: nesting depth and symbolic pieces of the call in progress
 	fmtSyms      [][]*Term
 	topicCloseFails bool // pubsub model: Topic.Close reports outstanding subscriptions
@@ -748,6 +749,21 @@ func (ex *Exec) callSSA(caller *Frame, callpos token.Pos, fn *ssa.Function, args
 	fr := &Frame{ex: ex, th: th, caller: caller, fn: fn, depth: depth, callPos: callpos}
 	if in := ex.p.intrinsicFor(fn); in != nil && !(ex.p.stubSet["real-ipld"] && isIpldCodecStub(in.name)) {
 		ex.res.Stubs[in.name]++
+		if ex.cfg.Races {
+			if key := syncKeyOf(in.name, args); key != nil {
+				// synchronisation primitive: clocks are exchanged on the object both
+				// before (release) and after (acquire, once a blocking call returned)
+				ex.syncOn(key)
+				r := in.fn(ex, fr, args)
+				ex.syncOn(key)
+				return r
+			}
+			if in.name == "verif_Quiesce" {
+				r := in.fn(ex, fr, args)
+				ex.syncBarrier()
+				return r
+			}
+		}
 		return in.fn(ex, fr, args)
 	}
 	if fn.Blocks == nil {
@@ -953,4 +969,20 @@ func isIpldCodecStub(name string) bool {
 	return strings.Contains(name, "go-ipld-prime/linking.LinkSystem).Load") ||
 		strings.Contains(name, "go-ipld-prime/codec/dagcbor.") ||
 		strings.Contains(name, "go-ipld-prime/codec/dagcbor.DecodeOptions)")
+}
+
+// syncKeyOf: the object a synchronisation intrinsic operates on (nil if the
+// intrinsic is not a synchronisation primitive).
+func syncKeyOf(name string, args []Value) interface{} {
+	if !(strings.HasPrefix(name, "(*sync.") || strings.HasPrefix(name, "sync/atomic.") || strings.HasPrefix(name, "(*sync/atomic.") ||
+		strings.Contains(name, "go-libp2p-pubsub.") || strings.HasPrefix(name, "verif_Pubsub")) {
+		return nil
+	}
+	if len(args) == 0 {
+		return nil
+	}
+	if p, ok := args[0].(*Value); ok && p != nil {
+		return p
+	}
+	return nil
 }
